@@ -104,45 +104,111 @@ theorem tie_logLine (c : Ctx) (msg : Bytes) :
 theorem logfThrough_cons (p : Bytes) (ps : List Bytes) (fmt : Bytes) :
     logfThrough (p :: ps) fmt = prefixedDebugger_prependFormat p (logfThrough ps fmt) := rfl
 
+/-- what `Printf` makes of a format whose only verbs are `%%`: every `%%` becomes `%`; `escPct`: a prefix with every `%`
+    doubled, as `prependFormat` splices it into the format -/
+def renderFmt : Bytes → Bytes
+  | 37 :: 37 :: r => 37 :: renderFmt r
+  | c :: r => c :: renderFmt r
+  | [] => []
+
+theorem renderFmt_cons_ne (c : Nat) (r : Bytes) (h : c ≠ 37) : renderFmt (c :: r) = c :: renderFmt r := by
+  cases r with
+  | nil => simp [renderFmt]
+  | cons d t =>
+    rw [renderFmt.eq_def]
+    split
+    · rename_i heq; simp at heq; exact absurd heq.1 h
+    · rename_i heq; simp at heq; obtain ⟨h1, h2⟩ := heq; subst h1; subst h2; rfl
+    · rename_i heq; simp at heq
+
+theorem renderFmt_pct (r : Bytes) : renderFmt (37 :: 37 :: r) = 37 :: renderFmt r := by
+  rw [renderFmt]
+
+def escPct (p : Bytes) : Bytes := replaceAllB p [37] [37, 37]
+
+theorem escPct_nil : escPct [] = [] := rfl
+theorem escPct_cons (c : Nat) (p : Bytes) : escPct (c :: p) = (if c = 37 then [37, 37] else [c]) ++ escPct p := by
+  simp only [escPct, replaceAllB, List.map_cons, List.flatten_cons]
+  by_cases h : c = 37 <;> simp [h]
+
+theorem renderFmt_escPct (p r : Bytes) : renderFmt (escPct p ++ r) = p ++ renderFmt r := by
+  induction p with
+  | nil => simp [escPct_nil]
+  | cons c p ih =>
+    rw [escPct_cons]
+    by_cases h : c = 37
+    · subst h
+      simp only [if_true, List.cons_append, List.nil_append]
+      rw [renderFmt_pct, ih]
+    · simp only [h, if_false, List.cons_append, List.nil_append]
+      rw [renderFmt_cons_ne c _ h, ih]
+
+theorem renderFmt_id (f : Bytes) (h : 37 ∉ f) : renderFmt f = f := by
+  induction f with
+  | nil => rfl
+  | cons c r ih =>
+    have hc : c ≠ 37 := fun e => h (e ▸ List.mem_cons_self ..)
+    have hr : 37 ∉ r := fun m => h (List.mem_cons_of_mem _ m)
+    rw [renderFmt_cons_ne c r hc, ih hr]
+
+theorem escPct_bracket_head (p r : Bytes) : (escPct (bracket p) ++ r).head? = some 91 := by
+  simp [bracket, escPct_cons]
+
+theorem prependFormat_eq (p f : Bytes) :
+    prefixedDebugger_prependFormat p f = escPct p ++ (if f.head? = some 91 then f else 32 :: f) := by
+  have hp : hasPrefix f [91] = decide (f.head? = some 91) := by
+    cases f with
+    | nil => simp [hasPrefix, isPrefixOfB]
+    | cons a t =>
+      by_cases h : a = 91
+      · subst h; simp [hasPrefix, isPrefixOfB]
+      · have : (91 == a) = false := by simp; omega
+        simp [hasPrefix, isPrefixOfB, this, h]
+  unfold prefixedDebugger_prependFormat
+  simp only [hp, escPct]
+  by_cases h : f.head? = some 91 <;> simp [h]
+
 /-- a format rewritten by at least one level starts with `[` (the bracket of the outermost of them) -/
 theorem logfThrough_bracket (ps : List Bytes) (hne : ps ≠ []) (fmt : Bytes) :
     (logfThrough (ps.map bracket) fmt).head? = some 91 := by
   cases ps with
   | nil => exact absurd rfl hne
   | cons p rest =>
-    simp only [List.map_cons, logfThrough_cons, prefixedDebugger_prependFormat, bracket]
-    split <;> simp
+    simp only [List.map_cons, logfThrough_cons, prependFormat_eq]
+    exact escPct_bracket_head p _
 
-/-- **`Logf`: the prefixes run together in front of the format, a blank before it unless it starts with `[`** -/
-theorem tie_logfLine (c : Ctx) (fmt : Bytes) :
-    logfLine c fmt = logfThrough (c.prefixes.map prefixedDebugger_Push) fmt := by
+/-- **`Logf`: what is printed is the prefixes AS THEY WERE PUSHED, run together in front of the format, a blank before it unless
+    it starts with `[`** - a `%` in a prefix is doubled on the way into the format and comes out single (the format itself is
+    free of verbs here, as in the observation) -/
+theorem tie_logfLine (c : Ctx) (fmt : Bytes) (hfmt : 37 ∉ fmt) :
+    logfLine c fmt = renderFmt (logfThrough (c.prefixes.map prefixedDebugger_Push) fmt) := by
   rw [push_map]
   unfold logfLine
   generalize c.prefixes = ps
   induction ps with
-  | nil => rfl
+  | nil => simp [logfThrough, renderFmt_id fmt hfmt]
   | cons p rest ih =>
-    simp only [List.map_cons, logfThrough_cons, List.flatten_cons]
+    simp only [List.map_cons, logfThrough_cons, List.flatten_cons, prependFormat_eq]
+    rw [renderFmt_escPct]
     cases rest with
     | nil =>
-      simp only [List.map_nil, List.flatten_nil, List.append_nil, logfThrough, List.foldr, prefixedDebugger_prependFormat, hasPrefix]
-      cases fmt with
-      | nil => simp [isPrefixOfB]
-      | cons a t =>
-        by_cases h : a = 91
-        · subst h; simp [isPrefixOfB]
-        · have : (91 == a) = false := by simp; omega
-          simp [isPrefixOfB, this, h]
+      simp only [List.map_nil, List.flatten_nil, List.append_nil, logfThrough, List.foldr]
+      have h32 : 37 ∉ (32 :: fmt) := by
+        intro hm; rcases List.mem_cons.mp hm with h | h
+        · omega
+        · exact hfmt h
+      by_cases h : fmt.head? = some 91
+      · simp only [h, if_true]; rw [renderFmt_id fmt hfmt]
+      · simp only [h, if_false]; rw [renderFmt_id _ h32]
     | cons q rest' =>
       have hb := logfThrough_bracket (q :: rest') (by simp) fmt
+      simp only [hb, if_true]
       simp only at ih
       rw [← ih]
-      simp only [prefixedDebugger_prependFormat, hasPrefix]
-      have hp : isPrefixOfB [91] ((List.map bracket (q :: rest')).flatten ++ if fmt.head? = some 91 then fmt else 32 :: fmt) = true := by
-        rw [ih]
-        cases hl : logfThrough (List.map bracket (q :: rest')) fmt with
-        | nil => rw [hl] at hb; simp at hb
-        | cons a t => rw [hl] at hb; simp at hb; subst hb; simp [isPrefixOfB]
-      simp [bracket, isPrefixOfB]
+      simp [List.append_assoc]
+
+/-- non-vacuity: a prefix `a%b` pushed, `Logf("f")`: the format handed on has the `%` doubled, the line has it single -/
+example : logfThrough [prefixedDebugger_Push [97, 37, 98]] [102] = [91, 97, 37, 37, 98, 93, 32, 102] ∧
+    renderFmt (logfThrough [prefixedDebugger_Push [97, 37, 98]] [102]) = [91, 97, 37, 98, 93, 32, 102] := by decide
 
 end Pgs.C18
